@@ -66,3 +66,8 @@ add("C18", "F", "enumeration of every prefix of the program-ordered write log (b
     "Every history up to the stated depth over pages (short, 75- and 149-byte stems, automatic webentity with variations), link and crawl batches, webentity creation and rule installation is executed on logging file objects; for every cut inside the last request (and byte cuts of appends) both files are materialised and reopened with the real constructor: either refused with the library's own error for a stated reason (partial block, one store missing) or the whole query battery runs without failure and reports only pages and links (with weights <=) of the completed history.",
     "DESIGN.md 6/C18", category="fault_enumeration",
     note="trusted base: CPython 3.12, tmpfs file semantics; fault model exactly as the property states it (program-order prefix of writes, atomic in-place block rewrites, byte-granular appends); OS-level reordering is out of scope")
+
+add("C16", "S", "stateless exploration of every interleaving of generator steps under a harness-owned scheduler with iterative preemption bounding (pairs unbounded unless stated, triples bounded), each schedule run to completion on the real Traph",
+    "Crawl batches, rule installations, page / page-link / network / most-linked queries are created on one shared index and advanced one next() at a time with every loop iteration a yield point. For every schedule: no request fails, final pages and link multigraph equal those of the requests applied one after another, inbound/outbound sides agree, and every query answer lies between the intersection and the union of the same query run atomically at every step boundary of its lifetime. Two known findings (walks are not snapshot-isolated) are classified by narrow signatures.",
+    "DESIGN.md 6/C16",
+    note="trusted base: CPython 3.12, the harness scheduler (one step = one next()), the stated participant menu and preemption bounds; generator-level interleaving only (the library has no threads)")
